@@ -11,7 +11,7 @@ from checks import _c02_helpers as H
 
 ID = "C02"
 LEVEL = "exploration"
-RUNS = {"quick": 6000, "thorough": 150000}
+RUNS = {"quick": 3000, "thorough": 150000}
 WALL_CAP = {"quick": 120, "thorough": 3000}
 RULE = ("one case = a generated handler program (0-5 handlers per queue event q0..q3 of kinds sync / waiter "
         "(cleared by timer, immediately, by another event's handler, by a nested event's callback) / coroutine; "
@@ -35,6 +35,9 @@ REAL = ["mpf.core.events.EventManager (post_queue/_async, post_relay/_async, pos
 STUBS = ["event loop (SimLoop: virtual time, stalls, tie order)", "clock (SimClock)", "virtual hardware platform",
          "in-memory data manager"]
 ASSUMPTIONS = ["call_soon FIFO order is kept (asyncio guarantees it)",
+               "bounded liveness: a dispatcher that may proceed (no wait outstanding) does so within the simulated "
+               "instant that enabled it (post, handler return, clear); at the end of a run every wait has been "
+               "cleared by the workload and 10 simulated seconds without any model event have passed",
                "time does not advance inside one loop iteration; lateness only through injected stalls",
                "handlers of equal priority may run in either order (statement only fixes priority order)",
                "a handler removed while an event is in flight may or may not run for that event",
@@ -46,7 +49,7 @@ QEV = H.QEV
 REV = H.REV
 BEV = H.BEV
 CEV = H.CEV
-DELAYS = [0.0, 0.0, 0.001, 0.01, 0.01, 0.05, 0.1, 0.1, 0.25, 0.5]
+DELAYS = [0.0, 0.0, 0.001, 0.01, 0.01, 0.05, 0.1, 0.1, 0.25, 0.5, 2.5]     # 2.5: rare long wait
 PRIOS = [10, 50, 100, 120, 150, 200, 300]
 LEVELS = {e: i for i, e in enumerate(QEV + REV + BEV)}
 
